@@ -552,6 +552,8 @@ class ConfigParser(object):
     species_a, species_b = tokens
     species_a = species_a.strip()
     species_b = species_b.strip()
+    if not species_a or not species_b:
+      raise ConfigParserException("Pair potential keys should be of the form 'SPECIES_A-SPECIES_B'. Species missing in key: '{}'".format(k))
     return  SpeciesTuple(species_a, species_b)
 
 
@@ -581,6 +583,8 @@ class ConfigParser(object):
       from_species, to_species = tokens
       from_species = from_species.strip()
       to_species = to_species.strip()
+      if not from_species or not to_species:
+        raise ConfigParserException("species missing in key '{}'".format(k))
       return  EAMFSDensitySpeciesTuple(from_species, to_species)
 
     try:
